@@ -316,6 +316,14 @@ struct bs_sum_t { T s[BS_CAP + 1]; } BS_SUMS;
 #define BS_SUM(k) (BS_SUMS.s[k])
 /* the solution vector of the abstract linear solver of interpolate (contracts/interp.ctr): arbitrary but fixed */
 struct bs_solx_t { T d[8 * BS_CAP]; } BS_SOLX;
+/* ghost copy of the linear system handed to the abstract solver (bounded blocks of contracts/interp.ctr): at most BS_GS unknowns */
+#define BS_GS 8
+struct bs_gr_t { T d[BS_GS]; };   /* (a named row type: goto-cc rejects an anonymous structure that holds rationals) */
+struct bs_gm_t { struct bs_gr_t r[BS_GS]; } BS_GM;
+struct bs_gb_t { T d[BS_GS]; } BS_GB;
+/* a product that is 0 when its first factor is 0 (for real multiplication: the product) -- lets the zero entries of
+ * the system drop out when multiplication is an arbitrary function (BS_OPAQUE_MUL) */
+#define BS_MUL0(a, b) ((a) == 0 ? BS_ZERO : BS_MUL(a, b))
 
 /* ---- splines --------------------------------------------------------------- */
 static const T BS_ZERO = 0;
